@@ -400,6 +400,24 @@ func c18Acl(a lib.Args, res *lib.Result) error {
 						Input: map[string]interface{}{"family": "acl", "seed": a.Seed, "bucket": bk.name}, Impl: c18ShowTagMap(t1), Model: mt})
 				}
 			}
+			if impl == "1" {
+				// a client may not use the reserved key: refused, and the stored ACL stays
+				rr := e.wP.ExecRaw("root", gw.Req{Method: "PUT", Path: "/" + bk.name, Query: "tagging", Body: prog.TagsXML([]prog.KV{{K: "versitygwAcl", V: "x"}, {K: "team", V: "y"}})})
+				t3, _ := e.tagsAtB(bk.name)
+				res.Histogram[fmt.Sprintf("acl:client-tagging-reserved-key:put=%d", rr.Status)]++
+				if rr.Status < 300 || t3["versitygwAcl"] != acl0 {
+					fail("proxy:acl:reserved-key-accepted", "a client's PutBucketTagging naming the reserved key was accepted or changed the stored ACL", bk,
+						fmt.Sprintf("status %d; endpoint tags: %s", rr.Status, c18ShowTagMap(t3)), "refused; "+c18ShowTagMap(t2))
+				}
+				mr, err := a.Driver.Ask([]string{"proxy tagging 1 " + c18ShowTagMap(t2) + " put " + c18ShowTagMap(map[string]string{"versitygwAcl": "x", "team": "y"})})
+				if err != nil {
+					return err
+				}
+				if !strings.HasPrefix(mr[0], "err ") {
+					res.Fail(lib.Failure{Kind: "correspondence", Signature: "acl-model:client-tagging-reserved", What: "the model accepts a client tag set that names the reserved key",
+						Input: map[string]interface{}{"family": "acl", "seed": a.Seed, "bucket": bk.name}, Impl: fmt.Sprintf("status %d", rr.Status), Model: mr[0]})
+				}
+			}
 			before[bk.name] = read(bk.name)
 			break
 		}
